@@ -2099,6 +2099,9 @@ class Ev:
                 a2 = strip_ref(a)
                 if a2["k"] == "closure":
                     args.append(self.lam(a2, env, gen))
+                elif a2["k"] == "path" and a2.get("dk") in ("Fn", "AssocFn") and p in (ITER + "map", "core::option::Option::<T>::map") and (a2.get("resolved_local") if a2.get("resolved") else a2.get("local")):
+                    # a local function used as the mapping function: |x| f(x), inlined
+                    args.append(["lam", 1, self.pure_call(a2.get("resolved") or a2["path"], [["lp", 0]])])
                 else:
                     args.append(self.sym(a, env, gen))
             if p == "core::slice::<impl [T]>::len" or p.endswith("::len") and not args:
